@@ -135,6 +135,8 @@ fn one<E: FieldElement<BaseField = Toy>>(sc: &Scenario) -> Result<Value, String>
         },
         None => None,
     };
+    // the main columns the prover is given: the prover stage of Trace_Verifier interpolates them (base-field events)
+    let tcols: Vec<Vec<u64>> = if E::EXTENSION_DEGREE == 1 { cols.iter().map(|c| c.iter().map(|e| e.v()).collect()).collect() } else { vec![] };
     let proof = prove_with::<Toy, H, RecCoin<H>>(sc, cols, claim).map_err(|e| format!("prove: {e}"))?;
     clog_take();
     ROLES.with(|r| r.borrow_mut().clear());
@@ -301,6 +303,9 @@ fn one<E: FieldElement<BaseField = Toy>>(sc: &Scenario) -> Result<Value, String>
         "cur": cur, "nxt": nxt, "lag": lag, "hz": vals(&hz),
         "positions": positions, "main_rows": tables.get(0).cloned().unwrap_or_default(), "aux_rows": tables.get(1).cloned().unwrap_or_default(),
         "comp_rows": crow, "fri": fri, "rem": rem, "merges": merges, "trees": trees});
+    if !tcols.is_empty() {
+        ev["tcols"] = json!(tcols);
+    }
     for part in [ev2, ev3] {
         for (k, v) in part.as_object().unwrap() {
             ev[k.as_str()] = v.clone();
